@@ -2,7 +2,7 @@ SPECIFICATION MCSpec
 CONSTANTS
   MaxCorrupt = 0
   BlockLens = {1, 2}
-  TableIds = {1, 2, 3, 4, 5}
+  TableIds = {1, 2, 3, 4, 5, 7}
   Reads = TRUE
   MaxLevel = 4
 VIEW View
